@@ -299,8 +299,8 @@ func runC11(c *engine.Ctx) {
 			for _, st := range blocking.States {
 				src := engine.Provenance(st.Chan, engine.ProvOpts{})
 				for k := range src.Calls {
-					if k.Pkg() != nil && k.Pkg().Path() == "time" && k.Name() == "After" && src.HasField(ucF) {
-						okTimeout = true
+					if k.Pkg() != nil && k.Pkg().Path() == "time" && (k.Name() == "After" || k.Name() == "NewTimer") && src.HasField(ucF) {
+						okTimeout = true // time.After(d), or the C channel of a time.NewTimer(d) stopped afterwards
 					}
 				}
 			}
@@ -776,8 +776,18 @@ func checkLastLeaveWakes(c *engine.Ctx, rule string) {
 					if b, ok := call.Common().Value.(*ssa.Builtin); ok && b.Name() == "close" {
 						if _, isChan := call.Common().Args[0].Type().Underlying().(*types.Chan); isChan {
 							// the group's own channel (also when the teardown was moved into a method of the group)
-							if _, base := engine.LoadedField(call.Common().Args[0]); base != nil && types.Identical(base.Type(), recv.Type()) {
-								return "close-chan"
+							if _, base := engine.LoadedField(call.Common().Args[0]); base != nil {
+								if types.Identical(base.Type(), recv.Type()) {
+									return "close-chan"
+								}
+								// the channel lives in a small struct the group holds (endpoint state moved into a value field)
+								if rs, ok := engine.Deref(recv.Type()).Underlying().(*types.Struct); ok {
+									for i := 0; i < rs.NumFields(); i++ {
+										if types.Identical(engine.Deref(rs.Field(i).Type()), engine.Deref(base.Type())) {
+											return "close-chan"
+										}
+									}
+								}
 							}
 						}
 					}
